@@ -33,7 +33,7 @@
 (* looks at chunks; ChunkIndependent says every result of every call is    *)
 (* one the reference admits, for every chunking, batching and schedule.    *)
 (***************************************************************************)
-EXTENDS Integers, Sequences, FiniteSets, TLC
+EXTENDS Integers, Sequences, FiniteSets, TLC, Randomization
 
 CONSTANTS
     DTs,        \* data types: {"out"}, {"out","err"} (client reads) or {"in"} (server reads)
@@ -44,7 +44,11 @@ CONSTANTS
     Windows,    \* receive windows (= stream buffer limit)
     Ns,         \* n >= 0 for read(n) / readexactly(n)
     ReadAll,    \* TRUE: read(-1) is offered as well
-    Seps,       \* separator names, subset of {"nl","ab","tup","re0","reK"}
+    SepShapes,  \* shapes of literal separator tuples offered (subset of AllShapes)
+    SepPer,     \* representatives drawn per shape (0 = all)
+    MaxSepLen,  \* units per literal in a tuple of two; single literals have up to 3
+    Regexes,    \* subset of {"re0", "reK"}
+    SepFix,     \* TRUE: earliest-end search for separator tuples (repaired rule)
     ReMax,      \* max_separator_len given with the regex "reK"
     MaxBatch,   \* packets per data_received
     MaxCalls,   \* 0: unbounded (exhaustive runs); else calls per behaviour
@@ -95,48 +99,104 @@ DataOf(s)  == SelectSeq(s, LAMBDA x : x \notin AllMarks)
 MarksOf(s) == SelectSeq(s, LAMBDA x : x \in AllMarks)
 
 -----------------------------------------------------------------------------
-(* Separators.  Code side: a leftmost regex search from a start offset.    *)
-(* Reference side: the shortest prefix that ends with a word of the        *)
-(* separator language.                                                     *)
-SepAlts(name) == CASE name = "nl"  -> << <<"n">> >>
-                   [] name = "ab"  -> << <<"a", "b">> >>
-                   [] name = "tup" -> << <<"a">>, <<"b", "n">> >>
-                   [] OTHER        -> <<>>
-SepIsRe(name) == name \in {"re0", "reK"}
-SepLen(name)  == CASE name = "nl" -> 1 [] name = "ab" -> 2 [] name = "tup" -> 2
-                   [] name = "re0" -> 0 [] name = "reK" -> ReMax
+(* Separators ("how the stream is asked to split") are data:                *)
+(*   <<"lit", <<alt1, alt2, ...>>>>  a single literal or a tuple/list of     *)
+(*                                   literals, in the order given by the app *)
+(*   <<"re0", <<>>>>, <<"reK", <<>>>> the compiled regex a+b without / with  *)
+(*                                   max_separator_len                       *)
+(* Code side: a leftmost regex search (alternation = first alternative that  *)
+(* matches at the leftmost start) from a start offset.  Reference side: the  *)
+(* shortest prefix that ends with a word of the separator language.          *)
+NoSep == <<"-", <<>>>>
+NlSep == <<"lit", << <<"n">> >> >>
+SepIsRe(sep) == sep[1] \in {"re0", "reK"}
+SepAlts(sep) == sep[2]
+SepLen(sep)  == CASE sep[1] = "re0" -> 0 [] sep[1] = "reK" -> ReMax
+                  [] OTHER -> LET L == {Len(SepAlts(sep)[i]) : i \in DOMAIN SepAlts(sep)} IN
+                              CHOOSE m \in L : \A x \in L : x <= m
 
 \* end (number of units of b up to the end of the match) of a match that
 \* starts right after the first p units, or 0
-MatchEndAt(name, b, p) ==
-    IF SepIsRe(name)
+AltEndAt(alt, b, p) ==
+    IF p + Len(alt) <= Len(b) /\ SubSeq(b, p + 1, p + Len(alt)) = alt
+    THEN p + Len(alt) ELSE 0
+
+MatchEndAt(sep, b, p) ==
+    IF SepIsRe(sep)
     THEN IF p + 1 <= Len(b) /\ b[p + 1] = "a"
          THEN LET J == {j \in (p + 2)..Len(b) : b[j] # "a"} IN
               IF J = {} THEN 0
               ELSE IF b[SetMin(J)] = "b" THEN SetMin(J) ELSE 0
          ELSE 0
-    ELSE LET alts == SepAlts(name)
-             I == {i \in DOMAIN alts :
-                     /\ p + Len(alts[i]) <= Len(b)
-                     /\ SubSeq(b, p + 1, p + Len(alts[i])) = alts[i]} IN
-         IF I = {} THEN 0 ELSE p + Len(alts[SetMin(I)])
+    ELSE LET alts == SepAlts(sep)
+             I == {i \in DOMAIN alts : AltEndAt(alts[i], b, p) > 0} IN
+         IF I = {} THEN 0 ELSE AltEndAt(alts[SetMin(I)], b, p)
 
-Search(name, b, start) ==
-    LET P == {p \in start..(Len(b) - 1) : MatchEndAt(name, b, p) > 0} IN
-    IF P = {} THEN 0 ELSE MatchEndAt(name, b, SetMin(P))
+\* the code as it is: one regex, leftmost start, first alternative
+SearchLeftmost(sep, b, start) ==
+    LET P == {p \in start..(Len(b) - 1) : MatchEndAt(sep, b, p) > 0} IN
+    IF P = {} THEN 0 ELSE MatchEndAt(sep, b, SetMin(P))
 
-InLang(name, x) ==
-    IF SepIsRe(name)
-    THEN Len(x) >= 2 /\ x[Len(x)] = "b" /\ \A i \in 1..(Len(x) - 1) : x[i] = "a"
-    ELSE x \in Range(SepAlts(name))
-
-RefEnd(name, R) ==
-    LET E == {e \in 1..Len(R) :
-                \E p \in 0..(e - 1) : InLang(name, SubSeq(R, p + 1, e))} IN
+\* the repaired rule (fixes/c19_readuntil_earliest_end.patch): every literal
+\* is searched and the match that ends first wins
+SearchEarliest(sep, b, start) ==
+    LET alts == SepAlts(sep)
+        E == {e \in 1..Len(b) : \E i \in DOMAIN alts, p \in start..(Len(b) - 1) :
+                                   AltEndAt(alts[i], b, p) = e} IN
     IF E = {} THEN 0 ELSE SetMin(E)
 
+Search(sep, b, start) ==
+    IF SepFix /\ ~SepIsRe(sep) THEN SearchEarliest(sep, b, start)
+    ELSE SearchLeftmost(sep, b, start)
+
+InLang(sep, x) ==
+    IF SepIsRe(sep)
+    THEN Len(x) >= 2 /\ x[Len(x)] = "b" /\ \A i \in 1..(Len(x) - 1) : x[i] = "a"
+    ELSE x \in Range(SepAlts(sep))
+
+RefEnd(sep, R) ==
+    LET E == {e \in 1..Len(R) :
+                \E p \in 0..(e - 1) : InLang(sep, SubSeq(R, p + 1, e))} IN
+    IF E = {} THEN 0 ELSE SetMin(E)
+
+(* Generation of the separators offered in a run: every literal tuple of    *)
+(* one or two different literals of <= MaxSepLen units is classified by its  *)
+(* shape; SepPer representatives of every shape in SepShapes are drawn       *)
+(* (0 = all of them).                                                        *)
+LitsUpTo(k) == UNION {[1..j -> Units] : j \in 1..k}
+Lits == LitsUpTo(MaxSepLen)
+LitTuples == {<<x>> : x \in LitsUpTo(3)} \cup {t \in Lits \X Lits : t[1] # t[2]}
+Ord(u) == CASE u = "n" -> 0 [] u = "a" -> 1 [] OTHER -> 2    \* byte order of \n, a, b
+RECURSIVE LexLess(_, _)
+LexLess(x, y) == IF x = <<>> THEN y # <<>>
+                 ELSE IF y = <<>> THEN FALSE
+                 ELSE IF Ord(x[1]) # Ord(y[1]) THEN Ord(x[1]) < Ord(y[1])
+                 ELSE LexLess(Tail(x), Tail(y))
+Shape(t) ==
+    IF Len(t) = 1
+    THEN LET x == t[1] IN
+         IF Len(x) = 1 THEN "one"                   \* one unit
+         ELSE IF \E i \in 2..Len(x) : x[i] = x[1]  \* its first unit occurs again (aa; aab, aba)
+              THEN (IF Len(x) = 2 THEN "rep" ELSE "rep3")
+         ELSE "word"
+    ELSE LET x == t[1]  y == t[2]
+             sh == IF Len(x) <= Len(y) THEN x ELSE y
+             lo == IF Len(x) <= Len(y) THEN y ELSE x
+             offs == {i \in 0..(Len(lo) - Len(sh)) : SubSeq(lo, i + 1, i + Len(sh)) = sh} IN
+         IF Len(x) = Len(y) THEN "eq"
+         ELSE IF 0 \in offs /\ x = sh THEN "prefix"    \* (a, ab): the longer one can never win
+         ELSE IF \E i \in offs : i + Len(sh) < Len(lo) THEN "nested"  \* shorter ends inside the longer
+         ELSE IF offs # {} THEN "suffix"
+         ELSE IF LexLess(lo, sh) THEN "lexopp"      \* the lexicographic maximum is the shorter one
+         ELSE "lexsame"
+AllShapes == {"one", "rep", "rep3", "word", "eq", "prefix", "nested", "suffix", "lexopp", "lexsame"}
+Pick(sh) == LET C == {t \in LitTuples : Shape(t) = sh} IN
+            IF SepPer = 0 \/ Cardinality(C) <= SepPer THEN C ELSE RandomSubset(SepPer, C)
+SepChoice == {NlSep} \cup {<<"lit", t>> : t \in UNION {Pick(sh) : sh \in SepShapes}}
+                     \cup {<<r, <<>>>> : r \in Regexes}
+
 -----------------------------------------------------------------------------
-NoCall == [k |-> "none", n |-> 0, n0 |-> 0, sep |-> "-", acc |-> <<>>, cur |-> 0, brk |-> FALSE]
+NoCall == [k |-> "none", n |-> 0, n0 |-> 0, sep |-> NoSep, acc |-> <<>>, cur |-> 0, brk |-> FALSE]
 NoTgt  == [on |-> FALSE, data |-> <<>>, eof |-> FALSE, late |-> FALSE]
 
 InitC(W) ==
@@ -502,8 +562,8 @@ Run ==
 CallKinds ==
     {[NoCall EXCEPT !.k = "read", !.n = n, !.n0 = n] : n \in Ns \cup (IF ReadAll THEN {-1} ELSE {})}
       \cup {[NoCall EXCEPT !.k = "exact", !.n = n, !.n0 = n] : n \in Ns}
-      \cup {[NoCall EXCEPT !.k = "until", !.sep = s] : s \in Seps}
-      \cup {[NoCall EXCEPT !.k = "line", !.sep = "nl"]}
+      \cup {[NoCall EXCEPT !.k = "until", !.sep = s] : s \in SepChoice}
+      \cup {[NoCall EXCEPT !.k = "line", !.sep = NlSep]}
 
 CallOK ==
     /\ Idle
